@@ -11,6 +11,10 @@ from values import *
 
 DEBUG = bool(os.environ.get("OHSA_LOOPSPEC_DEBUG"))
 
+# loop -> {role: loop-head value}: which loop-carried variable of a recognised kahn loop plays which role (decided from
+# the values at loop entry, never from the names of the locals); cleared per entry point
+KAHN_ROLES = {}
+
 
 def check(I, fr, lname, names, entry, fresh, head, outs):
     fn = lname[0]
@@ -64,6 +68,7 @@ def kahn_step(I, fr, lname, names, entry, fresh, head, outs):
             f"recognised roles {sorted(roles)} among {len(entry)} loop-carried variables", False, head, undecided=True)
         return
     pre = {k: fresh[r] for k, r in roles.items()}
+    KAHN_ROLES[tuple(lname)] = pre
     U, O, F = pre["unvisited"].t, pre["order"].t, pre["frontier"].t
     Dt = pre["indegree"].f["table"].t
     d = pre["depth"].p
